@@ -95,6 +95,8 @@ def run(tier, rep):
     ok, err, rej, stats = mrun.judge(allrecs, "marsh", "C14")
     rep.evaluations += len(allrecs)
     byid = dict((x["id"], x["tok"]) for x in items)
+    for n_ in range(64):
+        byid.setdefault("extra:%d" % n_, [])          # values built in the recorder (shared objects, unorderable set members): no token list
 
     def describe(ident):
         host, api, vid = ident.split(":", 2)
@@ -111,7 +113,7 @@ def run(tier, rep):
     seen_sig = {}
     for e in err:
         host, api, vid = describe(e["id"])
-        sig = "C14.%s.exception:%s:%s" % (api, e["error"].split(":")[0], vclass(byid[vid]))
+        sig = "C14.%s.exception:%s:%s" % (api, e["error"].split(":")[0], "extra" if vid.startswith("extra:") else vclass(byid[vid]))
         seen_sig[sig] = seen_sig.get(sig, 0) + 1
         if seen_sig[sig] <= 2:
             rep.reject(sig, "xdis.marsh." + ("dumps" if api in ("dumps", "hostld") else "loads"),
